@@ -10,7 +10,7 @@ PROPERTY = "C06"
 LEVEL = "exploration"
 NEED = ("h4x",)
 RULE = ("(enumerator, native C linked with the sanitized library) for each of 10 number types x {standard, "
-        "little-endian, native} x both directions: all 2^8 / 2^16 patterns, and for 32-bit types 2^24 stratified "
+        "little-endian, native} x both directions: all 2^8 / 2^16 patterns, and for 32-bit types 2^27 stratified "
         "patterns (quick; strata offset by VERIF_SEED) or all 2^32 (thorough, exhaustive=true per type), each "
         "checked against an independent shift-based byte-order reference, bit-exact round trip, in-place == "
         "out-of-place, strided (strides >= element size) == contiguous; float64: all single-bit, exponent-boundary, "
